@@ -331,7 +331,16 @@ def _fake_disk_partitions(all=False):
     P = namedtuple('sdiskpart', ['device', 'mountpoint', 'fstype', 'opts'])
     # (world['same_device']: mount points that show the same device string - btrfs subvolumes, bind mounts of sub-directories)
     pool = set(getattr(K, 'same_device', None) or ())
-    return [P('/dev/simpool' if m in pool else '/dev/sim%d' % i, m, 'btrfs' if m in pool else 'ext4', 'rw') for i, m in enumerate(K.mount_listing())]
+    # (world['automount']: mount points under systemd / autofs automount control - the mount table names them twice, the autofs
+    # placeholder line first, the real file system after it)
+    auto = set(getattr(K, 'automount', None) or ())
+    out = []
+    for i, m in enumerate(K.mount_listing()):
+        if all and m in auto and not any(p_.mountpoint == m for p_ in out):
+            # (all=False lists physical devices only: autofs is a 'nodev' file system)
+            out.append(P('systemd-1', m, 'autofs', 'rw,relatime,fd=41,pgrp=1,timeout=0,direct'))
+        out.append(P('/dev/simpool' if m in pool else '/dev/sim%d' % i, m, 'btrfs' if m in pool else 'ext4', 'rw'))
+    return out
 
 
 def _mount_listing(self):
